@@ -242,6 +242,10 @@ A_C09_Replaceable ==
         \* the event itself or a version that is not older
         /\ (IsReplaceable(Ev(i)) => (i \in store' \/ NotOlder(store', i) # {}))
 
+\* C09, "never removes the newest version of any address": least of all an event that is then refused - a refused
+\* submission removes nothing (the same step seen from C06 is RefusedLeavesNoTrace)
+A_C09_RefusedKeepsVersions == (last'.act = "Submit" /\ last'.ok = FALSE) => store \subseteq store'
+
 \* C17: a collection removes exactly the ephemeral and the expired
 A_C17_GcExact ==
     last'.act = "Gc" =>
@@ -260,6 +264,7 @@ C06_BroadcastOncePerAccept  == [][A_C06_BroadcastOncePerAccept]_vars
 C07_Atomic                  == [][A_C07_Atomic]_vars
 C08_OnlyAuthorDeletes       == [][A_C08_OnlyAuthorDeletes]_vars
 C09_Replaceable             == [][A_C09_Replaceable]_vars
+C09_RefusedKeepsVersions    == [][A_C09_RefusedKeepsVersions]_vars
 C17_GcExact                 == [][A_C17_GcExact]_vars
 
 \* the action-property bodies violated by the step (state, state'), each with the ids it is about
@@ -284,6 +289,7 @@ StepVerdict ==
     \cup (IF A_C07_Atomic THEN {} ELSE {<<"C07_Atomic", SubjectOfStep>>})
     \cup (IF A_C08_OnlyAuthorDeletes THEN {} ELSE {<<"C08_OnlyAuthorDeletes", ReplOffenders>>})
     \cup (IF A_C09_Replaceable THEN {} ELSE {<<"C09_Replaceable", ReplOffenders>>})
+    \cup (IF A_C09_RefusedKeepsVersions THEN {} ELSE {<<"C09_RefusedKeepsVersions", store \ store'>>})
     \cup (IF A_C17_GcExact THEN {} ELSE {<<"C17_GcExact", GcOffenders>>})
     \cup (IF OnlyAuthentic(store', wq', bcast') THEN {} ELSE {<<"C03_OnlyAuthentic", SubjectOfStep>>})
     \cup (IF FailClosed(store', wq', bcast') THEN {} ELSE {<<"C16_PolicyFailClosed", SubjectOfStep>>})
